@@ -402,7 +402,10 @@ static void undersized_bank(Case &c, WOPNFile *f, int v, size_t size, bool all)
         Block b(L, exact ? 0 : GUARD, false);
         int rc = -1;
         API("WOPN_SaveBankToMem", rc = WOPN_SaveBankToMem(f, b.p, L, (uint16_t)v, 0));
-        if(rc == WOPN_ERR_OK && accepted < 0) { accepted = (long)L; arc = rc; }
+        // "too small" = smaller than the image needs (layout of the specification); a size calculator that over-reports
+        // (version 1: +2 bytes) leaves lengths in [needed, calculated) which are not too small: three-valued, counted
+        if(rc == WOPN_ERR_OK && L >= spec_bank_size(v, m, p)) count("destinations_between_needed_and_calculated_size_accepted");
+        if(rc == WOPN_ERR_OK && accepted < 0 && L < spec_bank_size(v, m, p)) { accepted = (long)L; arc = rc; }
         if(!exact && b.first_damaged() >= 0 && damaged < 0) damaged = (long)L;
         cov.insert(vfmt("undersized|bank|v%d|%s|%s|rc%d", v, bank_region(v, m, p, L), exact ? "exact" : "canary", rc));
         if(rc != WOPN_ERR_OK && !valid_error_code(rc)) viol(c, vfmt("oracle:C15:undersized-destination-unknown-error-code:bank:v%d", v), vfmt("length %zu of %zu: returned %d", L, size, rc));
@@ -730,7 +733,7 @@ static void undersized_inst(Case &c, OPNIFile *f, int v, size_t size)
             Block b(L, exact ? 0 : GUARD, false);
             int rc = -1;
             API("WOPN_SaveInstToMem", rc = WOPN_SaveInstToMem(f, b.p, L, (uint16_t)v));
-            if(rc == WOPN_ERR_OK && accepted < 0) accepted = (long)L;
+            if(rc == WOPN_ERR_OK && accepted < 0 && L < spec_inst_size(v)) accepted = (long)L;
             if(!exact && b.first_damaged() >= 0 && damaged < 0) damaged = (long)L;
             if(rc != WOPN_ERR_OK && !valid_error_code(rc)) viol(c, vfmt("oracle:C15:undersized-destination-unknown-error-code:inst:v%d", v), vfmt("length %zu: returned %d", L, rc));
             cover(vfmt("undersized|inst|v%d|%s|%s|rc%d", v, L < 11 ? "magic" : L < spec_inst_size(v) - 65 ? "header" : "entry", exact ? "exact" : "canary", rc));
